@@ -79,7 +79,14 @@ Faults(iv) ==
   LET b == Base(iv)  mk == Marks(Inst(iv[1], iv[2])) IN
   (IF "none" \in FaultKinds THEN {[f |-> "none"]} ELSE {})
   \cup (IF "truncate" \in FaultKinds THEN {[f |-> "truncate", at |-> k] : k \in 0..(Len(b) - 1)} ELSE {})
-  \cup (IF "corrupt" \in FaultKinds THEN UNION {{[f |-> "corrupt", at |-> j, val |-> v] : v \in Replacements(mk[j], b[j])} : j \in 1..Len(b)} ELSE {})
+  \cup (IF "corrupt" \in FaultKinds
+        THEN UNION {{[f |-> "corrupt", at |-> j, val |-> v] :
+                        v \in {w \in Replacements(mk[j], b[j]) :
+                                 \* swapping the width 4 <-> 8 of an EMPTY array yields a valid dump of an empty array of the
+                                 \* other precision: not a fault
+                                 ~(mk[j] = "width" /\ w \in {4, 8} /\ HasEmptyArray(Inst(iv[1], iv[2])))}}
+                    : j \in 1..Len(b)}
+        ELSE {})
   \cup (IF "failat" \in FaultKinds THEN {[f |-> "failat", n |-> n] : n \in 1..Reads(Inst(iv[1], iv[2]))} ELSE {})
 Apply(b, ft) == IF ft.f = "truncate" THEN SubSeq(b, 1, ft.at)
                 ELSE IF ft.f = "corrupt" THEN [b EXCEPT ![ft.at] = ft.val]
@@ -91,7 +98,7 @@ RInit == /\ \E iv \in {x \in Instances : x[1] \in TypeIds /\ (WithLarge \/ x[2] 
                     /\ rtid = iv[1]
                     /\ s = Apply(Base(iv), ft))
                 \/ ("wrongtype" \in FaultKinds /\ \E t2 \in 1..NTypes :
-                    /\ ~Compat(TypeCat[iv[1]], TypeCat[t2])
+                    /\ ~CompatInst(Inst(iv[1], iv[2]), TypeCat[t2])
                     /\ fault = [f |-> "wrongtype", tid |-> iv[1], v |-> iv[2], t2 |-> t2]
                     /\ rtid = t2
                     /\ s = Base(iv)) )
@@ -99,7 +106,7 @@ RInit == /\ \E iv \in {x \in Instances : x[1] \in TypeIds /\ (WithLarge \/ x[2] 
          /\ nreads = 0 /\ failed = FALSE /\ outcome = "running"
 
 AllFaults == {"none", "truncate", "corrupt", "failat", "wrongtype"}
-QuickTypes == {1, 4, 5, 10, 12, 13, 17}
+QuickTypes == {1, 3, 5, 10, 12, 13, 17}
 AllTypes == 1..NTypes
 OnlyArray == {3}
 TruncOnly == {"truncate"}
@@ -195,5 +202,5 @@ WrongTypeCases == {[tid |-> iv[1], v |-> iv[2], fault |-> [f |-> "wrongtype", t2
 EmitFaults == TLCGet("stats").generated >= 0 /\
   ndJsonSerialize(IOEnv.VF_OUT2,
      SetToSeq({c \in FaultCases : c.fault.f # "none"})
-     \o SetToSeq({c \in WrongTypeCases : ~Compat(TypeCat[c.tid], TypeCat[c.fault.t2])}))
+     \o SetToSeq({c \in WrongTypeCases : ~CompatInst(Inst(c.tid, c.v), TypeCat[c.fault.t2])}))
 =============================================================================
